@@ -904,6 +904,39 @@ def gen_float_probe(rng, mem, mods):
     return imports, strings, "(%s) and #_s0 >= 0" % text
 
 
+def hash_value_text(f, data):
+    if f in ("md5", "sha1", "sha256"):
+        return '"%s"' % getattr(hashlib, f)(data).hexdigest()
+    return "%d" % ((zlib.crc32(data) & 0xFFFFFFFF) if f == "crc32" else checksum32(data))
+
+
+def gen_hash_chain(rng, mem):
+    """several hash.* calls on the SAME (offset, length), in one condition and across two rules of the file, in a
+    random order of md5 / sha1 / sha256 / crc32 / checksum32 (the digests are cached per scan, keyed by the range):
+    each compared with its own expected value, plus cross-equalities between functions, which are false.
+    Returns 1-2 condition texts."""
+    n = len(mem)
+    if n == 0:
+        return []
+    off = rng.choice([0, 0, rng.below(n)])
+    ln = rng.range(1, n - off)
+    data = mem[off:off + ln]
+    funcs = rng.shuffle(["md5", "sha1", "sha256", "crc32", "checksum32"])
+    k = rng.range(2, 4)
+
+    def term(f):
+        return "hash.%s(%d, %d) == %s" % (f, off, ln, hash_value_text(f, data))
+    first = " and ".join(term(f) for f in funcs[:k])
+    hexes = [f for f in funcs if f in ("md5", "sha1", "sha256")]
+    if len(hexes) >= 2 and rng.chance(1, 2):
+        first += " and not (hash.%s(%d, %d) == hash.%s(%d, %d))" % (hexes[0], off, ln, hexes[1], off, ln)
+    out = [first]
+    if rng.chance(2, 3):
+        rest = rng.shuffle(funcs)[:rng.range(1, 3)]
+        out.append(" and ".join(term(f) for f in rest))
+    return out
+
+
 def add_percent_rule(rng, case):
     """a rule with many strings and `P% of them`, P*n a multiple of 100 more often than not, a different number of
     matching strings in each input (two-way only: libyara's test is made in binary64)"""
@@ -948,6 +981,12 @@ def add_probes(rng, case, mods):
         case["rules"].append({"ns": case["rules"][-1]["ns"], "name": "fp", "global": False, "private": False,
                               "strings": strings, "cond": ("raw", text), "id": len(case["rules"]), "tail": False,
                               "ord_index": sum(1 for x in case["rules"] if not x["global"])})
+    if "hash" in mods and rng.chance(1, 2):
+        for j, text in enumerate(gen_hash_chain(rng.fork("hc"), mem)):
+            imports.add("hash")
+            case["rules"].append({"ns": case["rules"][-1]["ns"], "name": "hc%d" % j, "global": False, "private": False,
+                                  "strings": [], "cond": ("raw", text), "id": len(case["rules"]), "tail": False,
+                                  "ord_index": sum(1 for x in case["rules"] if not x["global"])})
     case["imports"] = sorted(imports)
     return case
 
